@@ -286,6 +286,8 @@ pub struct JobResult {
     pub rep: Report,
     /// classes that violated at depth 1 (for attribution of depth-2 violations)
     pub bases: u64,
+    /// first answer of this job reported as certified although it states something false (known key)
+    pub example: Option<Value>,
 }
 
 pub fn cert_name(fmt: Fmt, beacon: u64) -> String {
@@ -426,7 +428,8 @@ pub fn run_job(setup: &Setup, job: &Job) -> JobResult {
             }
         }
     }
-    JobResult { rep, bases: nbases }
+    let example = rep.extras.remove("example");
+    JobResult { rep, bases: nbases, example }
 }
 
 /// run one altered answer through the client and the oracle; returns true when it violates
@@ -448,6 +451,9 @@ fn judge(
                 rep.nontrivial(&hash64(resp));
             }
             rep.outcome(&why);
+            if job.sample && job.query.len() == 1 && path.len() == 1 && path[0].label.ends_with("slot_number +1") {
+                rep.sample(json!({"case": "altered answer", "format": fmt.name(), "query": job.query, "alteration": path[0].label, "verdict": why}));
+            }
             false
         }
         Verdict::Certified(r) => {
@@ -466,8 +472,18 @@ fn judge(
             let classes: Vec<&'static str> = path.iter().map(|a| a.class).collect();
             let clause = bad[0].0;
             const LEAF: &str = "chars-moved-between-leaf-and-neighbour-node";
-            let key = if classes.contains(&LEAF) && bad.iter().all(|b| b.0 == "uncertified-item-reported") {
-                // the only false statement is an item whose leaf borrows from / lends to a neighbour node
+            // C11/item-leaf-and-neighbour-node-concatenation only when every false statement is an item whose
+            // leaf string is a signed leaf with characters cut off its end or glued to its front
+            let explained = |it: &Item| -> bool {
+                let l = it.leaf();
+                w.items.iter().any(|h| {
+                    let hl = h.leaf();
+                    (hl.len() > l.len() && hl.starts_with(&l)) || (l.len() > hl.len() && l.ends_with(&hl))
+                })
+            };
+            let only_leaf_boundary = bad.iter().all(|b| b.0 == "uncertified-item-reported")
+                && r.items.iter().filter(|it| !w.items.contains(it)).all(explained);
+            let key = if classes.contains(&LEAF) && only_leaf_boundary {
                 KEY_LEAF_NEIGHBOUR.to_string()
             } else {
                 let mut cs = classes.clone();
@@ -475,6 +491,13 @@ fn judge(
                 cs.dedup();
                 format!("C11/{}:{}:{}", fmt.name(), clause, cs.join("+"))
             };
+            if key == KEY_LEAF_NEIGHBOUR && path.len() == 1 && !rep.extras.contains_key("example") {
+                rep.extra(
+                    "example",
+                    json!({"format": fmt.name(), "query": job.query, "beacon": job.beacon, "alteration": path[0].label,
+                           "reported_as_certified": r.items.iter().map(|i| i.short()).collect::<Vec<_>>()}),
+                );
+            }
             rep.add_extra(&format!("false_statements_certified[{}|{}]", fmt.name(), key), 1);
             if job.sample && job.query.len() == 1 && rep.samples.len() < 2 && path.len() == 1 {
                 rep.sample(json!({"case": "altered answer reported as certified", "format": fmt.name(), "alteration": path[0].label,
